@@ -260,6 +260,8 @@ def list_method(I, o, name):
     def pop(I_, a, k):
         if not o.items:
             I.raise_py('IndexError', 'pop from empty %s' % o.kind)
+        if a and getattr(o, 'is_deque', False):
+            I.raise_py('TypeError', 'deque.pop() takes no arguments (%d given)' % len(a))      # a deque is no list (see _deque)
         idx = a[0] if a else -1
         j = ops.norm_index(I, o, idx, len(o.items))
         if not isinstance(j, int):
@@ -340,7 +342,7 @@ def list_method(I, o, name):
 
     tbl = {'append': append, 'extend': extend, 'pop': pop, 'remove': remove, 'insert': insert, 'index': index,
            'count': count, 'clear': clear, 'copy': copy, 'reverse': reverse,
-           'popleft': lambda I_, a, k: pop(I_, [0], {})}
+           'popleft': lambda I_, a, k: (o.items.pop(0) if o.items else I.raise_py('IndexError', 'pop from an empty deque'))}
     if isba:
         tbl.update({'find': find, 'decode': decode, 'hex': hexm})
     else:
@@ -746,6 +748,16 @@ def lock_method(I, o, name):
         h = held if isinstance(held, bool) else I.path.decide(held.t)
         if h:
             if I.decide(blocking) and 'timeout' not in k and len(a) < 2:
+                hook = getattr(o, 'on_block', None)
+                if hook is not None:
+                    # explicit schedule (c.lock(..., on_block=f)): while this thread waits for the lock the other threads'
+                    # actions f() run (once); the holder's release must be among them, otherwise the wait never ends
+                    o.on_block = None
+                    hook()
+                    h2 = o.held if isinstance(o.held, bool) else I.path.decide(o.held.t)
+                    if not h2:
+                        o.held = True
+                        return True
                 # sequential semantics: acquiring a held lock blocks forever
                 raise PyRaise(ExcVal(M.exc_class(I, 'Deadlock'), ('acquire of held lock %s' % o.name,)))
             return False
@@ -1204,7 +1216,9 @@ EXTERNALS['array.array'] = _fn('array.array', _array_array)
 
 def _deque(I, a, k):
     I.note_assumption('collections.deque is modelled as a list (maxlen is not enforced)')
-    return PList(I.iterate_all(a[0]) if a else [])
+    d = PList(I.iterate_all(a[0]) if a else [])
+    d.is_deque = True       # list.pop(i) is a TypeError on a deque
+    return d
 
 
 EXTERNALS['collections.deque'] = _fn('collections.deque', _deque)
@@ -1259,7 +1273,8 @@ def external_base_attr(I, o, name):
             return Builtin('Thread.start', start)
         if name == 'join':
             def join(I_, a, k):
-                I.trace.append((nm + '.join', (o,), dict(k)))
+                # a positional time-out is recorded as timeout=, as the native stand-in does (nativectx._install_virtual_env.join)
+                I.trace.append((nm + '.join', (o,), dict(k) if not a else dict(k, timeout=a[0])))
             return Builtin('Thread.join', join)
         if name in ('is_alive', 'isAlive'):
             return Builtin('Thread.is_alive', lambda I_, a, k: o.attrs.get('_thread_started', False))
